@@ -666,3 +666,338 @@ class C19Validator(E2Harness):
         else:
             self.cover('symbolic verdict')
             self.require(ex, got == want, 'validator and published regex disagree')
+
+
+# =====================================================================================================
+# C20: numeric interpretation of text is exact
+# =====================================================================================================
+def install_generic_T(models, ty):
+    """bind the type parameter T of the generic MIR body (num_traits' impls for the primitive integers forward to the
+    inherent from_str_radix; TryFrom<u64> is the range check)"""
+    from models import from_str_radix as fsr
+
+    def t_from_str_radix(ex, c, a):
+        return fsr(ex, as_bytes_list(ex, a[0]), ex.concretize(a[1]), ty)
+
+    def t_try_from(ex, c, a):
+        bits, signed = INT_TYPES_[ty]
+        v = a[0]
+        lim = (1 << (bits - 1)) - 1 if signed else (1 << bits) - 1
+        if bits >= 64 and not signed:
+            return ok(I(v.e, False, ty))
+        if ex.decide(z3.UGT(v.e, bv(lim, 64))):
+            return err(Opaque('TryFromIntError'))
+        return ok(I(z3.simplify(z3.Extract(bits - 1, 0, v.e)), signed, ty))
+    models.add(r'^<T as Num>::from_str_radix$', t_from_str_radix, prefer=True)
+    models.rx.insert(0, models.rx.pop())
+    models.add(r'^<T as TryFrom<u64>>::try_from$', t_try_from, prefer=True)
+    models.rx.insert(0, models.rx.pop())
+
+
+from mirexec import INT_TYPES as INT_TYPES_
+
+
+def ref_integer_form(ex, bs):
+    """independent reading of the AUTOSAR integer forms  0 | [+-]?[1-9][0-9]* | 0[xX][0-9a-fA-F]+ | 0[bB][01]+ | 0[0-7]+
+    returns None (not of these forms) or (negative: bool, magnitude: z3 bit-vector of W bits), forking on the shape"""
+    from models import is_digit, is_hexdigit, digit_value
+    n = len(bs)
+    W = 8 + 4 * n + 64
+    if n == 0:
+        return None
+
+    def accumulate(ds, radix):
+        acc = bv(0, W)
+        shift = {2: 1, 8: 3, 16: 4}.get(radix)
+        for b in ds:
+            _, dv = digit_value(b, radix)
+            acc = ((acc << shift) | z3.ZeroExt(W - 8, dv)) if shift else (acc * radix + z3.ZeroExt(W - 8, dv))
+        ref_integer_form.biggest = radix ** len(ds) - 1
+        return z3.simplify(acc)
+    if ex.decide(bs[0] == 0x30):
+        if n == 1:
+            return (False, bv(0, W))
+        if ex.decide(z3.Or(bs[1] == 0x78, bs[1] == 0x58)):
+            ds = bs[2:]
+            if not ds or not all(ex.decide(is_hexdigit(b)) for b in ds):
+                return None
+            return (False, accumulate(ds, 16))
+        if ex.decide(z3.Or(bs[1] == 0x62, bs[1] == 0x42)):
+            ds = bs[2:]
+            if not ds or not all(ex.decide(z3.Or(b == 0x30, b == 0x31)) for b in ds):
+                return None
+            return (False, accumulate(ds, 2))
+        ds = bs[1:]
+        if not all(ex.decide(z3.And(z3.UGE(b, 0x30), z3.ULE(b, 0x37))) for b in ds):
+            return None
+        return (False, accumulate(ds, 8))
+    neg = False
+    ds = bs
+    if ex.decide(bs[0] == 0x2d):
+        neg = True
+        ds = bs[1:]
+    elif ex.decide(bs[0] == 0x2b):
+        ds = bs[1:]
+    if not ds:
+        return None
+    if not ex.decide(z3.And(z3.UGE(ds[0], 0x31), z3.ULE(ds[0], 0x39))):
+        return None
+    if not all(ex.decide(is_digit(b)) for b in ds[1:]):
+        return None
+    return (neg, accumulate(ds, 10))
+
+
+@register
+class C20Integer(ParserHarness):
+    ty = 'u8'
+    native = ('data', 'n_c20_integer')
+
+    def run(self, ex):
+        install_generic_T(ex.models, self.ty)
+        f = find_fn(ex.prog, '::parse_integer', 'chardata.rs')
+        self.bs = sym_bytes('b', self.n)
+        for b in self.bs:
+            ex.assume(z3.ULT(b, 0x80))
+        if self.part is not None:
+            i, k = self.part
+            if self.n == 0:
+                if i != 0:
+                    raise Infeasible()
+            else:
+                ex.assume(z3.URem(self.bs[0], k) == i)
+        v = cdata_string(list(self.bs))
+        r = ex.call(f, [Ref(Cell(v))])
+        return r
+
+    def replay_vals(self, m):
+        tys = ['u8', 'i8', 'u16', 'i16', 'u32', 'i32', 'u64', 'i64']
+        return [[tys.index(self.ty)], le_bytes(self.n, 8)] + [[x] for x in model_bytes(m, self.bs)]
+
+    def prop(self, out, ex):
+        if out[0] == 'panic':
+            self.require(ex, False, 'parse_integer panicked: ' + out[1])
+            return
+        r = out[1]
+        form = ref_integer_form(ex, list(self.bs))
+        if form is None:
+            self.cover('not an AUTOSAR integer text')
+            return
+        neg, mag = form
+        W = mag.size()
+        bits, signed = INT_TYPES_[self.ty]
+        big = getattr(ref_integer_form, 'biggest', None)
+        if neg:
+            # a negative text has a non-zero first digit, so its magnitude is >= 1: never fits an unsigned type
+            fits = z3.ULE(mag, bv(1 << (bits - 1), W)) if signed else z3.BoolVal(False)
+            if signed and big is not None and big <= (1 << (bits - 1)):
+                fits = z3.BoolVal(True)
+        else:
+            lim = (1 << (bits - 1)) - 1 if signed else (1 << bits) - 1
+            fits = z3.ULE(mag, bv(lim, W))
+            if big is not None and big <= lim:
+                fits = z3.BoolVal(True)       # that many digits cannot exceed the type: plain arithmetic, no solver
+        if r.variant == 'Some':
+            self.cover('number returned')
+            got = r.fields[0].e
+            val = z3.Extract(bits - 1, 0, mag)
+            if neg:
+                val = -val
+            self.require(ex, fits, 'parse_integer returns a number for a text whose value does not fit the requested type')
+            self.require(ex, z3.Or(z3.Not(fits), got == val), 'parse_integer returns a different number than the text denotes')
+        else:
+            self.cover('nothing returned')
+            self.require(ex, z3.Not(fits), 'parse_integer returns nothing for a text whose value fits the requested type')
+
+
+@register
+class C20Bool(ParserHarness):
+    native = ('data', 'n_c20_bool')
+
+    def run(self, ex):
+        f = find_fn(ex.prog, '::parse_bool', 'chardata.rs')
+        self.bs = sym_bytes('b', self.n)
+        for b in self.bs:
+            ex.assume(z3.ULT(b, 0x80))
+        return ex.call(f, [Ref(Cell(cdata_string(list(self.bs))))])
+
+    def replay_vals(self, m):
+        return [le_bytes(self.n, 8)] + [[x] for x in model_bytes(m, self.bs)]
+
+    def prop(self, out, ex):
+        if out[0] == 'panic':
+            self.require(ex, False, 'parse_bool panicked: ' + out[1])
+            return
+        r = out[1]
+        eqs = lambda lit: bytes_eq(list(self.bs), [bv(c, 8) for c in lit]) if len(lit) == self.n else False
+        t = zor(eqs(b'true'), eqs(b'1'))
+        f = zor(eqs(b'false'), eqs(b'0'))
+        if r.variant == 'Some':
+            v = r.fields[0]
+            self.cover('boolean returned')
+            self.require(ex, t if (v is True or (not isinstance(v, bool) and z3.is_true(z3.simplify(v)))) else f, 'parse_bool returns the wrong truth value')
+        else:
+            self.cover('nothing returned')
+            self.require(ex, znot(zor(t, f)), 'parse_bool returns nothing for a boolean text')
+
+
+@register
+class C20FloatRadix(ParserHarness):
+    """parse_float: radix-prefixed texts are the integer's value converted to f64; other texts go to str::parse::<f64> unchanged"""
+    native = ('data', 'n_c20_float_radix')
+
+    def run(self, ex):
+        f = find_fn(ex.prog, '::parse_float', 'chardata.rs')
+        self.bs = sym_bytes('b', self.n)
+        for b in self.bs:
+            ex.assume(z3.ULT(b, 0x80))
+        if self.part is not None:
+            i, k = self.part
+            if self.n == 0:
+                if i != 0:
+                    raise Infeasible()
+            else:
+                ex.assume(z3.URem(self.bs[0], k) == i)
+        return ex.call(f, [Ref(Cell(cdata_string(list(self.bs))))])
+
+    def replay_vals(self, m):
+        return [le_bytes(self.n, 8)] + [[x] for x in model_bytes(m, self.bs)]
+
+    def prop(self, out, ex):
+        if out[0] == 'panic':
+            self.require(ex, False, 'parse_float panicked: ' + out[1])
+            return
+        r = out[1]
+        bs = list(self.bs)
+        form = ref_integer_form(ex, bs)
+        radix_form = form is not None and len(bs) >= 2 and not form[0] and z3.is_true(z3.simplify(bs[0] == 0x30)) is False
+        # only hex / binary / octal / "0" texts are judged against the integer reading (decimal texts are std's dec2flt)
+        if form is None:
+            self.cover('not an integer text')
+            return
+        first_zero = ex.decide(bs[0] == 0x30)
+        if not first_zero:
+            self.cover('decimal text (std float parsing, outside the claim)')
+            return
+        neg, mag = form
+        W = mag.size()
+        fits = z3.ULE(mag, bv((1 << 64) - 1, W))
+        if r.variant == 'Some':
+            self.cover('radix text -> number')
+            want = z3.fpUnsignedToFP(z3.RNE(), z3.Extract(63, 0, mag), z3.Float64())
+            self.require(ex, z3.Or(z3.Not(fits), r.fields[0].e == want), 'parse_float returns a different number than the radix-prefixed text denotes')
+        else:
+            self.cover('radix text -> nothing')
+            self.require(ex, z3.Not(fits), 'parse_float returns nothing for a radix-prefixed text that fits 64 bits')
+
+
+# =====================================================================================================
+# C17: value-level version compatibility is exact
+# =====================================================================================================
+def install_enum_table_models(models):
+    """EnumItem::to_str / from_str / from_bytes on the real name table (items concrete on every path)"""
+    install_to_str_models(models)
+    tab = string_table('enumitem.rs')
+    lookup = {t: i for i, t in enumerate(tab)}
+
+    def from_bytes(ex, c, a):
+        bs = as_bytes_list(ex, a[0])
+        vals = [z3.simplify(x) for x in bs]
+        if not all(z3.is_bv_value(v) for v in vals):
+            raise Unsupported('EnumItem lookup on symbolic text')
+        key = bytes(v.as_long() for v in vals)
+        if key in lookup:
+            return ok(I(bv(lookup[key], 16), False, 'u16'))
+        return err(Opaque('ParseEnumItemError'))
+    for pat in (r'^autosar_data_specification::EnumItem::from_bytes$', r'^<autosar_data_specification::EnumItem as FromStr>::from_str$'):
+        models.add(pat, from_bytes, prefer=True)
+        models.rx.insert(0, models.rx.pop())
+    # AutosarVersion::compatible(mask) <=> mask has the version's bit (decided on the compiled function by h_version_filename_roundtrip)
+    models.add(r'^autosar_data_specification::<impl autosar_data_specification::AutosarVersion>::compatible$',
+               lambda ex, c, a: z3.simplify((a[1].e & ex.deref(a[0]).e) != 0), prefer=True)
+    models.rx.insert(0, models.rx.pop())
+
+
+@register
+class C17Value(E2Harness):
+    kind = 'enum'
+    native = ('data', 'n_c17_value')
+
+    def run(self, ex):
+        install_enum_table_models(ex.models)
+        f_cvc = find_fn(ex.prog, '::check_version_compatibility', 'chardata.rs')
+        f_cv = find_fn(ex.prog, '::check_value', 'chardata.rs')
+        f_parse = find_fn(ex.prog, '::parse', 'chardata.rs:7:1')
+        f_ser = find_fn(ex.prog, '::serialize_internal', 'chardata.rs')
+        self.ver = z3.BitVec('target_bit', 32)
+        ex.assume(z3.And(self.ver != 0, (self.ver & (self.ver - 1)) == 0, z3.ULT(self.ver, 1 << 21)))
+        ver = I(self.ver, False, 'u32')
+        self.vars = []
+        if self.kind == 'enum':
+            rows = []
+            for i in range(2):
+                it = z3.BitVec(f'row{i}_item', 16)
+                mk = z3.BitVec(f'row{i}_mask', 32)
+                ex.assume(z3.ULT(it, 3))
+                rows.append((I(it, False, 'u16'), I(mk, False, 'u32')))
+                self.vars += [it, mk]
+            self.rows = rows
+            spec = spec_enum(rows)
+            vi = z3.BitVec('value_item', 16)
+            ex.assume(z3.ULT(vi, 3))
+            self.vars.append(vi)
+            self.vi = vi
+            value = Agg('CharacterData', 'Enum', [I(vi, False, 'u16')])
+        elif self.kind == 'uint':
+            spec = spec_uint()
+            u = z3.BitVec('value_u', 64)
+            ex.assume(z3.ULT(u, 1000))
+            self.vars.append(u)
+            value = Agg('CharacterData', 'UnsignedInteger', [I(u, False, 'u64')])
+        else:
+            spec = spec_string(False, 3)
+            bs = sym_bytes('s', 2)
+            for b in bs:
+                ex.assume(z3.And(z3.UGE(b, 0x61), z3.ULE(b, 0x7a)))
+            self.vars += bs
+            value = cdata_string(bs)
+        sref = Ref(Cell(spec))
+        r = ex.call(f_cvc, [Ref(Cell(value)), sref, ver])
+        cv = ex.call(f_cv, [Ref(Cell(value)), sref, ver])
+        if self.kind == 'enum':
+            txt = Str()
+            ex.call(f_ser, [Ref(Cell(value)), Ref(Cell(txt))])
+            p = ex.call(f_parse, [Slice(list(txt.b), 0, len(txt.b), True), sref, ver])
+        else:
+            p = None
+        return r, cv, p
+
+    def replay_vals(self, m):
+        k = ['enum', 'uint', 'string'].index(self.kind)
+        out = [[k], le_bytes(m.eval(self.ver, model_completion=True).as_long(), 4)]
+        for v in self.vars:
+            out.append(le_bytes(m.eval(v, model_completion=True).as_long(), v.size() // 8))
+        return out
+
+    def describe(self, m):
+        return ', '.join(f'{v}={m.eval(v, model_completion=True)}' for v in [self.ver] + self.vars)
+
+    def prop(self, out, ex):
+        if out[0] == 'panic':
+            self.require(ex, False, 'panicked: ' + out[1])
+            return
+        r, cv, p = out[1]
+        okc, mask = r.fields[0], r.fields[1]
+        okb = okc if isinstance(okc, bool) else None
+        self.cover('compatible' if okc is True else 'incompatible')
+        cvb = zb(cv)
+        self.require(ex, zb(okc) == cvb, 'check_version_compatibility and check_value disagree for the target version')
+        if p is not None:
+            self.require(ex, zb(okc) == zb(p.variant == 'Some'), 'check_version_compatibility disagrees with re-validating the value text for the target version')
+        self.require(ex, zb(okc) == ((mask.e & self.ver) != 0), 'returned version mask does not contain the target version exactly when the value is compatible')
+        if self.kind == 'enum':
+            # independent reading: first row listing the item decides (find() semantics of the loader's table lookup)
+            in0 = zand(self.rows[0][0].e == self.vi, (self.rows[0][1].e & self.ver) != 0)
+            in1 = zand(self.rows[0][0].e != self.vi, self.rows[1][0].e == self.vi, (self.rows[1][1].e & self.ver) != 0)
+            self.require(ex, zb(okc) == zor(in0, in1), 'compatibility verdict differs from the item table (item listed with a mask containing the target version)')
+        else:
+            self.require(ex, zb(okc), 'a value without version restrictions is reported incompatible')
